@@ -1290,6 +1290,9 @@ class sptensor:
 
         # Extract locations of nonzeros in W
         wsubs, _ = W.find()
+        if wsubs.size == 0:
+            # a sparse mask without stored entries has subs of shape (1, 0)
+            wsubs = np.zeros((0, self.ndims), dtype=int)
 
         # Find which values in the mask match nonzeros in X
         valid, idx = tt_ismember_rows(wsubs, self.subs)
